@@ -162,6 +162,23 @@ def buildHdr (cap : Nat) (acc : List Nat) (tok : String) : BuildRes :=
       else .badspec
     | _, _ => .badspec
   | ["cr"] => fits [80, 1, Dnp3.Gen.App.qRange8, 7, 7, 0]
+  | [k, v, x] =>
+    -- `DeadBandHeader::group34_var<v>_u8|u16` → `WriteDeadBandsTask::write` → `write_prefixed_items`:
+    -- unlike a command header it is written even when it carries no item (count 0)
+    if k == "db8" || k == "db16" then
+      match v.toNat?, parseHexFast x with
+      | some v, some octets =>
+        if v < 1 || v > 3 then .badspec else
+        let wide := k == "db16"
+        let sz := idxSize wide + fixedSize 34 v
+        if octets.length % sz != 0 then .badspec else
+        let items : List CmdItem := (chunks sz octets).filterMap fun c =>
+          (readIdx wide c).map fun (i, val) => (i, val)
+        match writePrefixedItems cap acc 34 v wide items with
+        | some b => .bytes b
+        | none => .badwrite
+      | _, _ => .badspec
+    else .badspec
   | _ => .badspec
 
 def buildOp (ctrl fn cap : Nat) (toks : List String) : List String :=
